@@ -376,6 +376,7 @@ def c12(rep, tier):
     p = P("all")
     r_views.run_forwarders(p, rep)
     r_views.run_string_siblings(p, rep)
+    r_views.run_variant_key(p, rep)
     r_views.run_cast(p, rep)
     r_views.run_derived(p, rep)
     r_table.run_truth_table(p, rep)
